@@ -39,6 +39,11 @@ def cases(tier, seed):
             for dims in itertools.product(range(1, F + 1), repeat=3):
                 out.append({"cell": cellkind, "s": s, "dims": list(dims), "n": 1 if j == 1 else 1 + (s + j) % 7, "impropers": j % 2 == 0, "origin": j % 2 == 1,
                             "combo": combo})
+    # large factors along one axis (a rod or a slab of some hundred images) of structures of one to three atoms
+    for j, dims in enumerate([(49, 1, 1), (1, 98, 1), (1, 1, 103), (107, 1, 2), (2, 196, 1), (1, 3, 197), (64, 1, 1), (1, 100, 1)] if tier == "quick" else
+                             [(f, 1, 1) for f in range(40, 260, 3)] + [(1, f, 1) for f in range(41, 260, 3)] + [(1, 2, f) for f in range(42, 260, 3)]):
+        out.append({"cell": ["ortho", "tri", "rotated"][j % 3], "s": int(rng.integers(1 << 30)), "dims": list(dims), "n": 1 + j % 3, "impropers": False, "origin": j % 2 == 1,
+                    "combo": None, "long": True})
     return out
 
 
@@ -80,6 +85,8 @@ def _run(case, ctx, variant):
         a.positions = np.asarray(a.positions, float).dot(Rm.T)
     from vmon.oracle.util import flavour
     st.seen("array_flavour", flavour(a, case["s"] // 3))
+    if case.get("long"):
+        st.count("replications_with_a_factor_of_forty_or_more")
     snap = clone(a)
     m0 = AM.resolve(a)
     cell = np.array(a.cell, float)
@@ -199,6 +206,8 @@ def requirements(stats, tier):
     F = 3 if tier == "quick" else 5
     if stats.nseen("dims") < F ** 3:
         need.append("only %d of %d factor triples observed" % (stats.nseen("dims"), F ** 3))
+    if stats.get("replications_with_a_factor_of_forty_or_more") < (8 if tier == "quick" else 200):
+        need.append("replications with a factor of forty or more along one axis: %d" % stats.get("replications_with_a_factor_of_forty_or_more"))
     if stats.nseen("array_flavour") < 5:
         need.append("array flavours of the structure (integer widths, memory order, read-only): %s" % sorted(stats.sets.get("array_flavour", [])))
     if stats.nseen("cell_kind") < 5:
